@@ -423,7 +423,9 @@ func (p *pep440Extension) number(input string) (int, string) {
 			break
 		}
 	}
-	num, _ := strconv.ParseUint(input[:i], 10, 64)
+	// Parse at the size of int: a larger number saturates at the largest int
+	// instead of wrapping around to a negative one.
+	num, _ := strconv.ParseUint(input[:i], 10, strconv.IntSize-1)
 	return int(num), input[i:]
 }
 
